@@ -54,6 +54,8 @@ def spec_collect(names, rows, c):
     for x in cols:
         if isinstance(x, int):
             resolved.append(x)
+        elif not isinstance(x, str):
+            return ("raises",)   # a float, None, a nested list: a malformed column reference (never "the position it rounds to")
         elif x in names:
             resolved.append(list(names).index(x))
         else:
@@ -69,6 +71,10 @@ def spec_collect(names, rows, c):
             return ("raises",)
         lim = n if (limit is None or limit < 0 or limit >= n) else limit
         out = [[rows[j][x] for j in range(lim)] for x in resolved]
+    if c.get("np") and any(isinstance(x, int) for x in cols):
+        # a numpy integer is not an `int`: today it is looked up as a column *name* (ValueError); were it accepted as a
+        # position, it would have to give that position's column -- either way never some other column's data
+        return ("ok-or-raises", out[0] if kind == "single" else out)
     return ("ok", out[0] if kind == "single" else out)
 
 
@@ -142,7 +148,8 @@ def judge_seq(case, obs, model_lines=None, hit=None):
             continue  # refers to something an earlier step failed to create
         if op == "frame":
             if "ok" in ob:
-                ref.frames[st["id"]] = {"names": list(st["names"]), "rows": [list(r) for r in st["rows"]], "lazy": bool(st.get("lazy")), "dead": False}
+                ref.frames[st["id"]] = {"names": list(st["names"]), "rows": [list(r) for r in st["rows"]], "lazy": bool(st.get("lazy")), "dead": False,
+                                        "rs": st.get("rs")}
         elif op == "arrow":
             if "ok" in ob:
                 rows = [list(r) for r in zip(*st["cols"])] if st["cols"] else []
@@ -166,7 +173,7 @@ def judge_seq(case, obs, model_lines=None, hit=None):
                     continue  # a tuples-only class is not meant to take dictionaries
                 want = [st["dict"].get(f) for f in cl["fields"]]
                 if model_lines is not None:
-                    model_lines.append((i, "C10 rownew " + wire.line(cl["fields"], False, st["dict"]), ob))
+                    model_lines.append((i, "C10 rownew " + wire.line(cl["fields"], False, st.get("dict_kind", "dict") == "dict", st["dict"]), ob))
             else:
                 want = list(st["tuple"])
             hit("site:judged:row:" + (st.get("dict_kind", "dict") if "dict" in st else "tuple"))
@@ -179,7 +186,7 @@ def judge_seq(case, obs, model_lines=None, hit=None):
             if "dict" in st:
                 want = [st["dict"].get(f) for f in fr["names"]]
                 if model_lines is not None:
-                    model_lines.append((i, "C10 rownew " + wire.line(fr["names"], False, st["dict"]), ob))
+                    model_lines.append((i, "C10 rownew " + wire.line(fr["names"], False, True, st["dict"]), ob))  # append copies a mapping itself
             else:
                 want = list(st["tuple"])
             hit("site:judged:append")
@@ -212,7 +219,8 @@ def judge_seq(case, obs, model_lines=None, hit=None):
             else:
                 fr["lazy"] = False
                 if "ok" in ob and ob["ok"] is not None:
-                    ref.frames[st["id"]] = {"names": list(ob.get("names", fr["names"])), "rows": ob["ok"], "lazy": False, "dead": False}
+                    ref.frames[st["id"]] = {"names": list(ob.get("names", fr["names"])), "rows": ob["ok"], "lazy": False, "dead": False,
+                                            "rs": fr.get("rs")}
         elif op == "display":
             if fr["dead"] or not fr["names"]:
                 continue
@@ -228,11 +236,21 @@ def judge_seq(case, obs, model_lines=None, hit=None):
             mcw = {"str": 30}.get(via, st.get("mcw", 500))
             t = printed_rows(fr["rows"], limit, bool(st.get("tt", True)), lazy, via)
             dws = [spec_data_width([r[k] for r in t]) for k in range(len(fr["names"]))]
-            want = [min(mcw, max(len(nm), dw)) for nm, dw in zip(fr["names"], dws)]
+            # the type row (when shown): the type's name for a typed column, one character for a plain list of names
+            show_types = bool(st.get("types")) and via in ("ascii", "display")   # str(frame) and markdown show no type row
+            tws = [(len(t_) if fr.get("rs") else 1) if show_types else 0 for t_ in (fr.get("rs") or fr["names"])]
+            want = [min(mcw, max(len(nm), tw, dw)) for nm, tw, dw in zip(fr["names"], tws, dws)]
+            hit("site:display:schema:%s:%s" % ("typed" if fr.get("rs") else "names", "types-shown" if show_types else "types-hidden"))
             got = observed_widths(ob["ok"], via)
             if got is None:
                 hit("site:display-widths-not-observable:" + via)
                 continue
+            if len(set(fr["names"])) < len(fr["names"]):
+                firsts = [fr["names"].index(nm) for nm in fr["names"]]
+                later_longer = any(f != k and dws[k] > dws[f] for k, f in enumerate(firsts))
+                hit("site:display:names:duplicate" + (":later-one-longer" if later_longer else ""))
+            else:
+                hit("site:display:names:" + ("digit-strings" if all(nm.isdigit() for nm in fr["names"]) else "unique"))
             hit("site:judged:display:%s:%s:%s" % (via, "lazy" if lazy else "eager", "head+tail" if len(t) < len(fr["rows"]) and len(t) > max(limit, 0) else "head-only" if len(t) < len(fr["rows"]) else "all-rows"))
             longest = [max(range(len(fr["rows"])), key=lambda j: len(str(fr["rows"][j][k])) if fr["rows"][j][k] is not None else 0) for k in range(len(fr["names"]))] if fr["rows"] else []
             for j in longest:
@@ -240,7 +258,7 @@ def judge_seq(case, obs, model_lines=None, hit=None):
                 hit("site:display:longest-in:" + ("all-printed" if len(t) == len(fr["rows"]) else "head" if j < L_ else "tail" if j >= len(fr["rows"]) - (len(t) - L_) and len(t) > L_ else "hidden"))
             if model_lines is not None and via != "markdown":
                 lens = [[True, [None if v is None else len(str(v)) for v in r]] for r in t]
-                model_lines.append((i, "C10 dwidths " + wire.line(fr["names"], lens, limit), {"widths": got, "names": fr["names"], "mcw": mcw}))
+                model_lines.append((i, "C10 dwidths " + wire.line(fr["names"], lens, limit), {"widths": got, "names": fr["names"], "mcw": mcw, "tws": tws}))
             if got != want:
                 return (i, "display width is not the longest rendered non-null value (floor 4) of the printed rows", want)
         elif op == "bytes":
@@ -257,6 +275,8 @@ def judge_collect(want, ob):
         return None
     if want[0] == "raises":
         return None if "raises" in ob else "a column index outside 0..width-1 (or an unknown column) did not raise"
+    if want[0] == "ok-or-raises" and "raises" in ob:
+        return None
     if "raises" in ob:
         return "DataFrame.collect raised %s on a valid request" % ob["raises"]
     if ob["ok"] != want[1]:
@@ -287,7 +307,7 @@ def model_agrees(line, mo, ob):
     if line.startswith("C10 rownew"):
         return m[0] == "some" and ob.get("ok") == m[1]
     if line.startswith("C10 dwidths"):
-        want = [None if dw is None else min(ob["mcw"], max(len(nm), dw)) for nm, dw in zip(ob["names"], m[0])]
+        want = [None if dw is None else min(ob["mcw"], max(len(nm), tw, dw)) for nm, tw, dw in zip(ob["names"], ob.get("tws") or [0] * len(ob["names"]), m[0])]
         return want == ob["widths"]
     raise InfraError("unknown model line " + line[:30])
 
@@ -295,7 +315,7 @@ def model_agrees(line, mo, ob):
 # ----------------------------------------------------------------------------- generators
 
 VALS = [0, 1, -7, 12345, None, "s", "é", "abc def", 2.5, -0.25, True, False, "", 10**12, "x" * 9]
-NAMEPOOL = ["a", "b", "c", "id", "é", "k k", "n0", "0", "A", "zz"]
+NAMEPOOL = ["a", "b", "c", "id", "é", "k k", "n0", "0", "A", "zz", "1", "10", "ab", "a ", "-1", "value"]
 
 
 def exhaustive_public(max_dim):
@@ -321,6 +341,16 @@ def exhaustive_public(max_dim):
                 requests.append((list(reversed(names)), "list"))
                 requests.append(([names[-1]], "set"))
             limits = ["absent", "none"] + list(range(-2, nrows + 3))
+            if width >= 2:
+                # the same requests on frames whose columns share a name, or are named like positions of other columns
+                for alt in (["n0"] * width, [str(width - 1 - k) for k in range(width)], ["n1", "n0"] + ["n0"] * (width - 2)):
+                    for nm in sorted(set(alt)) + ["n"]:
+                        for kind, cols in (("single", [nm]), ("list", [nm, nm]), ("tuple", [nm, width - 1])):
+                            for limit in ("absent", 1):
+                                c = {"fn": "pcollect", "names": alt, "rows": rows, "lazy": False, "cols": cols, "ckind": kind}
+                                if limit != "absent":
+                                    c["limit"] = limit
+                                cases.append(c)
             for cols, kind in requests:
                 for limit in limits:
                     for lazy in (False, True):
@@ -343,6 +373,24 @@ def boundary_public():
                 cases.append({"fn": "pcollect", "names": ["a", "b"], "rows": rows, "lazy": False, "cols": cols, "ckind": kind, "limit": limit})
         for idx in (2**31 - 1, 2**31, -(2**31), -(2**31) - 1, 2, -1):
             cases.append({"fn": "pcollect", "names": ["a", "b"], "rows": rows, "lazy": False, "cols": [idx], "ckind": "list", "limit": 1})
+        # positions that are outside 0..width-1 but congruent to a valid position modulo 2**32 / 2**64 (a conversion to
+        # int32 that wraps instead of rejecting would answer them with a column's data), as Python and as numpy integers
+        for idx in (2**32, 2**32 + 1, 2**32 - 1, 2**32 + 2, 3 * 2**32 + 1, -(2**32), -(2**32) + 1, 2**40, 2**40 + 1,
+                    2**63 - 1, 2**63, 2**63 + 1, -(2**63), 2**64, 2**64 + 1, 65536, 2**16 + 1):
+            for cols, kind in (([idx], "single"), ([idx], "list"), ([0, idx], "list"), ([idx, 1, 0], "tuple")):
+                cases.append({"fn": "pcollect", "names": ["a", "b"], "rows": rows, "lazy": False, "cols": cols, "ckind": kind})
+            cases.append({"fn": "pcollect", "names": ["a", "b"], "rows": rows, "lazy": False, "cols": [idx], "ckind": "single", "via": "getitem"})
+            cases.append({"fn": "pcollect", "names": ["a", "b"], "rows": rows, "lazy": False, "cols": [idx], "ckind": "list", "limit": 2})
+        # column references that are neither positions nor names: they must raise, not be rounded to a position
+        for bad in (1.5, 1.0, 0.0, -0.5, 0.999, None, [0], {"__float__": "nan"}):
+            for cols, kind in (([bad], "single"), ([bad], "list"), ([0, bad], "list"), ([bad, "b"], "tuple")):
+                if kind == "single" and isinstance(bad, list):
+                    continue   # a list is a request for several columns
+                cases.append({"fn": "pcollect", "names": ["a", "b"], "rows": rows, "lazy": False, "cols": cols, "ckind": kind})
+        for npk in ("int64", "uint64", "int32", "int8", "uint8"):
+            for idx in (0, 1, 2, -1, 255, 256, 257, 2**32, 2**32 + 1, -(2**32) + 1, 2**63, 2**64 - 1):
+                for cols, kind in (([idx], "single"), ([1, idx], "list")):
+                    cases.append({"fn": "pcollect", "names": ["a", "b"], "rows": rows, "lazy": False, "cols": cols, "ckind": kind, "np": npk})
     return cases
 
 
@@ -361,8 +409,10 @@ def random_public(rng, count):
                 cols.append(rng.randrange(width))
             elif r < 0.9:
                 cols.append(rng.choice(names))
-            elif r < 0.95:
-                cols.append(rng.choice([-1, width, width + 3]))
+            elif r < 0.93:
+                cols.append(rng.choice([0.0, 1.0, 0.5, -0.5, None, float(width - 1)]))
+            elif r < 0.96:
+                cols.append(rng.choice([-1, width, width + 3, 2**32 + rng.randrange(width), -(2**32) + rng.randrange(width), 2**64 + rng.randrange(width)]))
             else:
                 cols.append("missing")
         kind = rng.choice(["list", "list", "tuple", "single"]) if k > 1 else rng.choice(["list", "single", "single", "set", "tuple"])
@@ -373,6 +423,8 @@ def random_public(rng, count):
             c["limit"] = rng.choice(["none", 0, 0, 1, nrows - 1, nrows, nrows + 1, -1, -5, rng.randint(-2, nrows + 2), 2**31, 2**40])
         if rng.random() < 0.08:
             c["via"] = "getitem"
+        if rng.random() < 0.06:
+            c["np"] = rng.choice(["int64", "uint64", "int32", "uint8"])
         out.append(c)
     return out
 
@@ -393,7 +445,7 @@ def _dict_kind(rng, st):
     return st
 
 
-def _display_rows(rng, width, n, limit):
+def _display_rows(rng, width, n, limit, prefer_col=None):
     """Rows whose longest value sits in the head, the tail, a hidden middle row, or nowhere special."""
     rows = [[rng.choice([0, 7, None, "ab", 1.5, True, "é"]) for _ in range(width)] for _ in range(n)]
     where = rng.choice(["head", "tail", "tail", "hidden", "none", "last", "last", "first"])
@@ -412,7 +464,7 @@ def _display_rows(rng, width, n, limit):
         else:
             j = None
         if j is not None:
-            k = rng.randrange(width)
+            k = rng.randrange(width) if (prefer_col is None or rng.random() < 0.25) else prefer_col
             rows[j][k] = rng.choice(["tail-value-0123456789", 10**14, "x" * rng.randint(5, 40), -123456.789, "ééééééé"])
     return rows, where
 
@@ -432,9 +484,18 @@ def random_seq(rng, tag):
     width = rng.choice([1, 2, 3, 4])
     fields = ["%s_%s" % (t, x) for x in rng.sample(["a", "b", "c", "d", "é", "k k"], width)]
     extra = ["%s_zz" % t, "other"]
+    # columns that share a name (the result of a join / of selecting a column twice), names that extend one another
+    dup_col = None
+    if width >= 2 and rng.random() < 0.3:
+        a, b = sorted(rng.sample(range(width), 2))
+        if rng.random() < 0.75:
+            fields[b] = fields[a]
+            dup_col = b
+        else:
+            fields[b] = fields[a] + rng.choice(["_", " ", "0"])
     if kind in ("classes", "mixed"):
         makers = []
-        n_arrow = rng.choice([0, 1, 1])
+        n_arrow = rng.choice([0, 1, 1]) if len(set(fields)) == len(fields) else 0
         for _ in range(n_arrow):
             cols = [[rng.choice([1, 2, 30]) for _ in range(2)] if rng.random() < 0.5 else [rng.choice(["x", "yy"]) for _ in range(2)] for _ in fields]
             makers.append({"op": "arrow", "id": new("f"), "names": list(fields), "cols": cols})
@@ -532,9 +593,15 @@ def random_seq(rng, tag):
         if via == "str":
             n = rng.choice([3, 20, 21, 22, 30])
             limit = 10
-        rows, where = _display_rows(rng, width, n, 10 if via == "str" else limit)
+        rows, where = _display_rows(rng, width, n, 10 if via == "str" else limit, dup_col)
         short = [x[len(t) + 1 :] or "x" for x in fields]  # short names, so the data decides the width
+        if rng.random() < 0.2:
+            # names that look like the positions of *other* columns
+            digits = [str(width - 1 - k) for k in range(width)]
+            short = [digits[fields.index(f)] for f in fields]
         src = rng.choice(["eager", "eager", "lazy", "lazy", "arrow", "appended"])
+        if len(set(fields)) < len(fields) and src == "arrow":
+            src = "eager"
         f = new("f")
         if src == "arrow" and n and all(all(v is not None and not isinstance(v, bool) for v in r) for r in rows):
             cols = [[str(r[k]) for r in rows] for k in range(width)]
@@ -544,8 +611,13 @@ def random_seq(rng, tag):
             steps.append({"op": "display", "frame": f, "limit": limit, "tt": True, "via": "ascii"})
             steps.append({"op": "append", "frame": f, "tuple": rows[-1]})
         else:
-            steps.append({"op": "frame", "id": f, "names": short, "rows": rows, "lazy": src == "lazy"})
+            fst = {"op": "frame", "id": f, "names": short, "rows": rows, "lazy": src == "lazy"}
+            if rng.random() < 0.35:
+                fst["rs"] = [rng.choice(["VARCHAR", "INTEGER", "DOUBLE", "BOOLEAN"]) for _ in short]   # a typed schema
+            steps.append(fst)
         st = {"op": "display", "frame": f, "limit": limit, "tt": rng.random() < 0.75, "via": via}
+        if via in ("ascii", "display") and rng.random() < 0.4:
+            st["types"] = True
         if rng.random() < 0.25:
             st["mcw"] = rng.choice([4, 5, 8, 21, 30])
         steps.append(st)
@@ -573,6 +645,7 @@ def seeded_corpus():
     fields = ["c10_left", "c10_right", "c10_absent"]
     rec = {"c10_right": "r", "c10_left": 1, "unrelated": 99}
     tail = [["ab", i] for i in range(11)] + [["tail-value-0123456789", 10**12]]
+    dup = [[1, "k0", "alpha-centauri-bb"], [22, "k1", "betelgeuse"], [None, "k2", None], [3, "k3", "proxima"]]
     return [
         {"fn": "seq", "kind": "corpus", "steps": [
             {"op": "arrow", "id": "fA", "names": fields, "cols": [[1, 2], ["x", "y"], [3, 4]]},
@@ -597,6 +670,31 @@ def seeded_corpus():
             {"op": "display", "frame": "fT", "limit": 3, "tt": False, "via": "ascii"},
             {"op": "display", "frame": "fT", "limit": 0, "tt": True, "via": "ascii"},
             {"op": "display", "frame": "fT", "limit": 3, "via": "markdown"},
+        ]},
+        {"fn": "seq", "kind": "corpus", "steps": [
+            # two columns carry one name (a join, a column selected twice); the later one holds the longer values
+            {"op": "frame", "id": "fD", "names": ["value", "key", "value"], "rows": dup, "lazy": False},
+            {"op": "display", "frame": "fD", "limit": 10, "tt": True, "via": "display"},
+            {"op": "display", "frame": "fD", "limit": 2, "tt": True, "via": "ascii"},
+            {"op": "display", "frame": "fD", "limit": 10, "via": "str"},
+            {"op": "collect", "frame": "fD", "cols": ["value"], "ckind": "single"},
+            {"op": "collect", "frame": "fD", "cols": ["value", 2, "key"], "ckind": "list", "limit": 2},
+            {"op": "append", "frame": "fD", "dict": {"value": "appended-to-both-columns", "key": "k"}},
+            {"op": "display", "frame": "fD", "limit": 0, "tt": False, "via": "ascii"},
+            {"op": "class", "id": "cDup", "fields": ["value", "key", "value"], "tuples_only": False, "via": "list"},
+            {"op": "row", "cls": "cDup", "dict": {"value": 1, "other": 2}},
+        ]},
+        {"fn": "seq", "kind": "corpus", "steps": [
+            # names that are the positions of other columns, a name that extends another
+            {"op": "frame", "id": "fP", "names": ["2", "0", "1"], "rows": [[r[0], r[1], r[2]] for r in dup], "lazy": True},
+            {"op": "display", "frame": "fP", "limit": 10, "tt": True, "via": "ascii"},
+            {"op": "frame", "id": "fQ", "names": ["1", "0", "1"], "rows": dup, "lazy": False},
+            {"op": "collect", "frame": "fQ", "cols": ["1"], "ckind": "single"},
+            {"op": "collect", "frame": "fQ", "cols": ["0", 0, "1", 1], "ckind": "tuple"},
+            {"op": "display", "frame": "fQ", "limit": 1, "tt": True, "via": "display"},
+            {"op": "frame", "id": "fR", "names": ["a", "ab", "a "], "rows": dup, "lazy": False},
+            {"op": "display", "frame": "fR", "limit": 3, "tt": False, "via": "ascii"},
+            {"op": "collect", "frame": "fR", "cols": ["a ", "ab"], "ckind": "list"},
         ]},
         {"fn": "seq", "kind": "corpus", "steps": [
             {"op": "frame", "id": "fL", "names": ["a", "b"], "rows": tail, "lazy": True},
